@@ -274,7 +274,10 @@ class NumSem(_Counting):
         return ["START", ast]
 
 
-TD_MODULES = {"calc": ["ModelBase", "Num"], "text": ["ModelBase", "Word"], "word": ["Word"], "pair": ["Pair", "Num"]}
+TD_MODULES = {"calc": ["ModelBase", "Num"], "text": ["ModelBase", "Word"], "word": ["Word"], "pair": ["Pair", "Num"],
+              # different module OBJECTS with one and the same __name__ (two generated `model.py` files loaded by path, a module
+              # reloaded after it was regenerated): the classes of each hang under a base class of their own version
+              "gen@1": ["ModelBase", "Num"], "gen@2": ["ModelBase", "Num", "Word", "Pair"], "gen@3": ["Word", "Kw"]}
 BH_KINDS = {"B1": "config", "B2": "constructors", "B3": "config"}  # objects the caller keeps and passes again
 
 
@@ -286,9 +289,12 @@ def _td_module(name):
 
     key = "tdmod:" + name
     if key not in _BUILDER_NS:
-        mod = types.ModuleType(name + "_model")
+        mod = types.ModuleType(name.split("@")[0] + "_model")
+        base = Node
+        if "@" in name:
+            base = type(f"V{name.split('@')[1]}Base", (Node,), {"__module__": "elsewhere"})
         for cn in TD_MODULES[name]:
-            setattr(mod, cn, type(cn, (Node,), {"__module__": mod.__name__}))
+            setattr(mod, cn, type(cn, (base,), {"__module__": mod.__name__}))
         _BUILDER_NS[key] = mod
     return _BUILDER_NS[key]
 
@@ -368,10 +374,12 @@ _BUILDER_NS: dict = {}
 _VCTR = [0]
 BUILDER_POOL = [{"basetype": "MyBase"}, {"basetype": "OtherBase"}, {"constructors": ["Num"]}, {"constructors": ["Num", "Word"]},
                 {"typedefs": ["Num", "Word"]}, {"synthok": False}, {"builderconfig": "MyBase"}, {"basetype": "MyBase", "synthok": False},
-                {"constructors": ["fnNum", "fnKw", "fnWord"]}, {"constructors": ["fnNum", "fnKw", "fnWord"]}, {"tdmod": "calc"}, {"tdmod": "word"}, {"bh": "B1"}, {"bh": "B1", "tdmod": "calc"}, {"bh": "B2", "tdmod": "text"}]
+                {"constructors": ["fnNum", "fnKw", "fnWord"]}, {"constructors": ["fnNum", "fnKw", "fnWord"]}, {"tdmod": "calc"}, {"tdmod": "word"}, {"bh": "B1"}, {"bh": "B1", "tdmod": "calc"}, {"bh": "B2", "tdmod": "text"},
+                {"tdmod": "gen@1"}, {"tdmod": "gen@2"}, {"tdmod": "gen@3"}, {"tdmod": "gen@2"}]
 # the options of a history about ONE application-wide builder configuration (see gen_builder_history)
 BH_POOL = [{"bh": "B1"}, {"bh": "B1", "tdmod": "calc"}, {"bh": "B1", "tdmod": "text"}, {"bh": "B1", "tdmod": "word"}, {"bh": "B1", "tdmod": "pair"},
-           {"bh": "B2"}, {"bh": "B2", "tdmod": "calc"}, {"bh": "B2", "tdmod": "word"}, {"bh": "B2", "tdmod": "text"}, {"tdmod": "calc"}, {"tdmod": "text"}]
+           {"bh": "B2"}, {"bh": "B2", "tdmod": "calc"}, {"bh": "B2", "tdmod": "word"}, {"bh": "B2", "tdmod": "text"}, {"tdmod": "calc"}, {"tdmod": "text"},
+           {"tdmod": "gen@1"}, {"tdmod": "gen@2"}, {"tdmod": "gen@3"}, {"bh": "B1", "tdmod": "gen@1"}, {"bh": "B1", "tdmod": "gen@2"}]
 
 
 class EqSem(_Counting):
